@@ -181,7 +181,8 @@ HiddenSplits(al, m, n) ==
 
 \* clipsrequired: the operations must spell out the clipped ends (custom / global mode); otherwise
 \* (semiglobal / local, whose clip operations are documented to be filtered) clips may be absent
-ValidAlignment(al, x, y, sc, clipsrequired) ==
+\* everything but the score clause (also used for witness alignments supplied by a driver)
+ValidShape(al, x, y, clipsrequired) ==
     /\ WellFormedOps(al.ops)
     /\ al.xlen = Len(x) /\ al.ylen = Len(y)
     /\ 0 <= al.xstart /\ al.xstart <= al.xend /\ al.xend <= Len(x)
@@ -194,6 +195,9 @@ ValidAlignment(al, x, y, sc, clipsrequired) ==
        ELSE /\ ~clipsrequired /\ cx = 0 /\ cy = 0                      \* clips filtered: walk the aligned part
             /\ WalkOK(al.ops, 1, Sub(x, 0, al.xend), Sub(y, 0, al.yend),
                       al, al.xstart, al.ystart)
+
+ValidAlignment(al, x, y, sc, clipsrequired) ==
+    /\ ValidShape(al, x, y, clipsrequired)
     /\ \/ al.score = Rescore(al, x, y, sc, TRUE)
        \/ al.score = Rescore(al, x, y, sc, FALSE)
        \/ /\ ~clipsrequired                                   \* clip operations filtered out: a clip that stood
